@@ -108,6 +108,9 @@ def step (d : DSt) (ts : List String) : DSt × List String :=
       | c :: o :: n :: rest => ⟨nat! c, nat! o, nat! n⟩ :: fams rest
       | _ => []
     (d, [if pfxEditShuts false (fams r) then "cease-6-1" else "stays"])
+  | ["wirenotif", gl, nl, pg, pn, code, sub] =>
+    let (a, b) := convertNotification (nNegotiated (b! gl) (b! nl) (b! pg) (b! pn)) (nat! code) (nat! sub)
+    (d, [s!"{a}-{b}"])
   | ["hdr", k] => (d, [s!"1-{hdrSub (nat! k)}"])
   | ["edge", a, b] =>
     -- b = 99 encodes the dying marker -1 (ends the loop, no transition)
